@@ -18,6 +18,8 @@ type C14Item struct {
 	Tag   string `json:"tag"`   // unique per item; starts with 'g' when the call goes through the gate
 	Arg   string `json:"arg"`   // column name, or a literal rendered as is (ONCE)
 	Alias string `json:"alias"` // "" for spin / spinasync
+	// Cond, when set (ASYNC / unqualified calls only), wraps the call: CASE WHEN a > Cond THEN call ELSE 'none' END
+	Cond *float64 `json:"cond,omitempty"`
 }
 
 type C14Case struct {
@@ -80,6 +82,10 @@ func genC14(t *rapid.T) any {
 			it.Tag = fmt.Sprintf("g%d", i)
 			gated++
 		}
+		if (it.Q == "async" || it.Q == "") && rapid.IntRange(0, 3).Draw(t, l+".conditional") == 0 {
+			v := rapid.SampledFrom([]float64{0, 1, 2, 3}).Draw(t, l+".cond")
+			it.Cond = &v
+		}
 		c.Items = append(c.Items, it)
 	}
 	// release permutation over at most n*gated calls
@@ -131,6 +137,9 @@ func (c *C14Case) sql(qualified bool) string {
 		if !qualified && (it.Q == "spin" || it.Q == "spinasync") {
 			continue // the unqualified comparison query has no counterpart for calls that add no column
 		}
+		if it.Cond != nil {
+			call = fmt.Sprintf("CASE WHEN a > %s THEN %s ELSE 'none' END", sq.NumLit(*it.Cond), call)
+		}
 		if it.Alias != "" {
 			call += " AS " + it.Alias
 			if it.Q == "async" && firstAsync == "" {
@@ -179,12 +188,21 @@ func checkC14(c *C14Case) Result {
 		selected = append(selected, row)
 	}
 	gatedItems := 0
+	expectedGated := 0
 	for _, it := range c.Items {
 		if strings.HasPrefix(it.Tag, "g") {
 			gatedItems++
+			expectedGated += len(selected)
+			if it.Cond != nil {
+				expectedGated -= len(selected)
+				for _, row := range selected {
+					if row["a"].(float64) > *it.Cond {
+						expectedGated++
+					}
+				}
+			}
 		}
 	}
-	expectedGated := gatedItems * len(selected)
 	mix := map[string]bool{}
 	for _, it := range c.Items {
 		q := it.Q
@@ -291,11 +309,26 @@ func checkC14(c *C14Case) Result {
 				arg = "k"
 			}
 			o[it.Alias] = vfValue(it.Tag, arg)
+			if it.Cond != nil && !(row["a"].(float64) > *it.Cond) {
+				o[it.Alias] = "none"
+			}
 		}
 		want = append(want, o)
 	}
+	taken := func(it C14Item) int {
+		if it.Cond == nil {
+			return len(selected)
+		}
+		n := 0
+		for _, row := range selected {
+			if row["a"].(float64) > *it.Cond {
+				n++
+			}
+		}
+		return n
+	}
 	for _, it := range c.Items {
-		n := len(selected)
+		n := taken(it)
 		switch it.Q {
 		case "async", "spinasync":
 			if calls[it.Tag] != n || done[it.Tag] != n {
@@ -403,7 +436,7 @@ func init() {
 			"permutation: arrival order, reversed and random permutations; a pump lets a sequential engine proceed). Observed when Exec returns: " +
 			"every ASYNC and SPINASYNC call was invoked exactly once per selected row and has completed; every ASYNC column holds the value of the " +
 			"pure function for that row; SPIN/SPINASYNC add no column; a ONCE call ran once and every row shows its value; unqualified calls ran once " +
-			"per row; the whole result equals that of the same query without qualifiers (also with an ASYNC column under DISTINCT or as ORDER BY key, and over a multi-dimensional FROM); " +
+			"per row (a quarter of the ASYNC / unqualified calls sit inside CASE WHEN a > c THEN call ELSE 'none' END and run only on the rows that take the branch); the whole result equals that of the same query without qualifiers (also with an ASYNC column under DISTINCT or as ORDER BY key, and over a multi-dimensional FROM); " +
 			"ASYNC/SPIN/SPINASYNC on immediate functions (registered and built-in) are rejected with an error. Non-trivial: >=2 selected rows, >=1 " +
 			"gated call and a completion order different from arrival order, or an immediate-function case.",
 		Assumptions: []string{
